@@ -24,7 +24,7 @@ ASSUMPTIONS = ['normal simulator: prefix = events while the simulated clock <= T
                'scripted strategies decide from (index, own observations) only']
 MIN_OBS = {'frontier_row_accesses': 20000, 'pairs_compared': 200, 'pairs_nontrivial': 50, 'pairs_step': 60, 'pairs_fast': 40,
            'prefix_events_compared': 100000, 'prefix_hook_events': 20000,
-           'sessions_with_liquidations': 5}
+           'sessions_with_liquidations': 5, 'sessions_with_unaligned_warmup': 4}
 
 
 def _tail(rng, base, k, kind, resting, step=None):
@@ -146,6 +146,13 @@ def run_job(job):
             r['script'].update(sl=None, entry='market', p_enter=0.5, on_reduced=None)
             if r['script'].get('sides') == 'short' and False:
                 pass
+    if job['i'] % 7 == 4 and spec['warmup']:
+        # a warm-up series that stops in the middle of a window of the larger timeframes (its length is not a multiple of them)
+        extra = rng.choice([2, 3, 7])
+        spec['warmup'] += extra
+        for cs_ in spec['candles'].values():
+            cs_['n'] += extra
+        cnt0['sessions_with_unaligned_warmup'] = 1
     allc = session.build_candles(spec)
     w = spec['warmup']
     n = len(next(iter(allc.values()))) - w
@@ -208,6 +215,10 @@ def run_job(job):
         # a row beyond the simulated minute/chunk was touched: place a cut exactly at that row
         cuts[max(1, min(b_, a_ if a_ > cur_ else b_))] = 'read_frontier'
     cuts.setdefault(1, 'first_minute')
+    if cnt0.get('sessions_with_unaligned_warmup'):
+        cuts[1] = 'first_minute'
+        cuts[2] = 'first_minutes'
+        cuts[3] = 'first_minutes'
     cuts.setdefault(rng.randrange(1, n), 'random')
     cuts.setdefault(rng.randrange(1, n), 'random')
     chosen = []
@@ -217,7 +228,8 @@ def run_job(job):
         if 1 <= k < n - 1 and k not in [c[0] for c in chosen]:
             chosen.append((k, name))
     rng.shuffle(chosen)
-    chosen = sorted(chosen, key=lambda c_: c_[1] not in ('read_frontier', 'before_liquidation'))[:job.get('max_cuts', 5)]
+    chosen = sorted(chosen, key=lambda c_: c_[1] not in ('read_frontier', 'before_liquidation', 'first_minute', 'first_minutes')
+                    if cnt0.get('sessions_with_unaligned_warmup') else c_[1] not in ('read_frontier', 'before_liquidation'))[:job.get('max_cuts', 5)]
     lattice = next(iter(spec['candles'].values())).get('lattice')
     for k, name in chosen:
         t_cut = t0 + k * 60000
